@@ -85,27 +85,86 @@ static std::string RealPattern(const W & w, const std::string & pat)
    return r;
 }
 
+// ---- payloads: the number n written "path=n" stands for the Message {v:int32 n; a:int32 n iff n even; b:int32 [n/3 (, n iff n>=6)]
+//      iff n%3==0; c: iff n%5<=1, the string "s" when n is odd, int32 7 when n is even}; "-" is the empty Message.  The fields
+//      a, b, c exist so that filters differing in ONE attribute (field name, value index, type code) are told apart by some payload.
+static void FillPayload(Message & m, int32 n)
+{
+   (void) m.AddInt32("v", n);
+   if (n < 0) return;
+   if ((n%2) == 0) (void) m.AddInt32("a", n);
+   if ((n%3) == 0) {(void) m.AddInt32("b", n/3); if (n >= 6) (void) m.AddInt32("b", n);}
+   if ((n%5) <= 1) {if (n%2) (void) m.AddString("c", "s"); else (void) m.AddInt32("c", 7);}
+}
+
+// ---- filters.  spec :=  x | x<f>[I|S][i<idx>] | (g|l|e)[<f>]<int>[i<idx>] | A[spec.spec...] | O[...] | X[...] | N[spec]
+//      f in {a,b,c} (default v): ValueExistsQueryFilter(field, type code, index), Int32QueryFilter(field, index, op, value),
+//      And / Or / Xor / Nand(one child = not)
+static ConstQueryFilterRef ParseFilter(const std::string & f, size_t & pos)
+{
+   if (pos >= f.size()) return ConstQueryFilterRef();
+   const char c = f[pos];
+   if ((c == 'A')||(c == 'O')||(c == 'X')||(c == 'N'))
+   {
+      pos++; if ((pos < f.size())&&(f[pos] == '[')) pos++;
+      MultiQueryFilter * mq = (c == 'A') ? (MultiQueryFilter *) new AndQueryFilter : ((c == 'O') ? (MultiQueryFilter *) new OrQueryFilter
+                            : ((c == 'X') ? (MultiQueryFilter *) new XorQueryFilter : (MultiQueryFilter *) new NandQueryFilter));
+      ConstQueryFilterRef ret(mq);
+      while((pos < f.size())&&(f[pos] != ']'))
+      {
+         ConstQueryFilterRef kid = ParseFilter(f, pos);
+         if (kid()) (void) mq->GetChildren().AddTail(kid);
+         if ((pos < f.size())&&(f[pos] == '.')) pos++;
+      }
+      if (pos < f.size()) pos++;   // ']'
+      return ret;
+   }
+   pos++;
+   std::string field = "v";
+   if ((pos < f.size())&&((f[pos] == 'a')||(f[pos] == 'b')||(f[pos] == 'c'))) {field = std::string(1, f[pos]); pos++;}
+   if (c == 'x')
+   {
+      uint32 tc = B_ANY_TYPE;
+      if ((pos < f.size())&&(f[pos] == 'I')) {tc = B_INT32_TYPE;  pos++;}
+      else if ((pos < f.size())&&(f[pos] == 'S')) {tc = B_STRING_TYPE; pos++;}
+      uint32 idx = 0;
+      if ((pos < f.size())&&(f[pos] == 'i')) {pos++; size_t st = pos; while((pos < f.size())&&(isdigit(f[pos]))) pos++; idx = (uint32) atol(f.substr(st, pos-st).c_str());}
+      return ConstQueryFilterRef(new ValueExistsQueryFilter(field.c_str(), tc, idx));
+   }
+   size_t st = pos; if ((pos < f.size())&&(f[pos] == '-')) pos++;
+   while((pos < f.size())&&(isdigit(f[pos]))) pos++;
+   const int32 n = (int32) atol(f.substr(st, pos-st).c_str());
+   uint32 idx = 0;
+   if ((pos < f.size())&&(f[pos] == 'i')) {pos++; size_t s2 = pos; while((pos < f.size())&&(isdigit(f[pos]))) pos++; idx = (uint32) atol(f.substr(s2, pos-s2).c_str());}
+   uint8 op = Int32QueryFilter::OP_EQUAL_TO;
+   if (c == 'g') op = Int32QueryFilter::OP_GREATER_THAN;
+   if (c == 'l') op = Int32QueryFilter::OP_LESS_THAN;
+   return ConstQueryFilterRef(new Int32QueryFilter(field.c_str(), op, n, idx));
+}
+
+// every filter made in this case, archived, with its spec: the server's filter objects are recognised by their archives
+static std::vector<std::pair<MessageRef, std::string> > g_filterSpecs;
+
 static ConstQueryFilterRef MkFilter(const std::string & f)
 {
    if (f.empty()) return ConstQueryFilterRef();
-   if (f == "x") return ConstQueryFilterRef(new ValueExistsQueryFilter("v"));
-   const int32 n = (int32) atol(f.c_str()+1);
-   uint8 op = Int32QueryFilter::OP_EQUAL_TO;
-   if (f[0] == 'g') op = Int32QueryFilter::OP_GREATER_THAN;
-   if (f[0] == 'l') op = Int32QueryFilter::OP_LESS_THAN;
-   return ConstQueryFilterRef(new Int32QueryFilter("v", op, n));
+   size_t pos = 0;
+   ConstQueryFilterRef ret = ParseFilter(f, pos);
+   if (ret())
+   {
+      bool known = false;
+      for (size_t i=0; i<g_filterSpecs.size(); i++) if (g_filterSpecs[i].second == f) {known = true; break;}
+      if (!known) {MessageRef a = MkMsg(0); if (ret()->SaveToArchive(*a()).IsOK()) g_filterSpecs.push_back(std::make_pair(a, f));}
+   }
+   return ret;
 }
 
 static std::string FilterSpec(const QueryFilter * qf)
 {
    if (qf == NULL) return "";
-   const Int32QueryFilter * i = dynamic_cast<const Int32QueryFilter *>(qf);
-   if (i)
-   {
-      const char c = (i->GetOperator() == Int32QueryFilter::OP_GREATER_THAN) ? 'g' : ((i->GetOperator() == Int32QueryFilter::OP_LESS_THAN) ? 'l' : 'e');
-      return std::string("@") + c + itos(i->GetValue());
-   }
-   if (dynamic_cast<const ValueExistsQueryFilter *>(qf)) return "@x";
+   Message a; a.what = 0;
+   if (qf->SaveToArchive(a).IsOK())
+      for (size_t i=0; i<g_filterSpecs.size(); i++) if (*g_filterSpecs[i].first() == a) return std::string("@") + g_filterSpecs[i].second;
    return "@?";
 }
 
@@ -176,7 +235,7 @@ static MessageRef BuildCommand(Ctx & c, int K, const std::string & code, const s
          const size_t eq = items[i].find('=');
          const std::string path = items[i].substr(0, eq);
          MessageRef d = MkMsg(0);
-         if (eq != std::string::npos) (void) d()->AddInt32("v", (int32) atol(items[i].c_str()+eq+1));
+         if (eq != std::string::npos) FillPayload(*d(), (int32) atol(items[i].c_str()+eq+1));
          (void) m()->AddMessage(path.c_str(), d);
       }
       if (flags) (void) m()->AddInt32(PR_NAME_FLAGS, (int32) flags);
@@ -381,6 +440,7 @@ static void RunCase(long k, const std::string & line)
    // oracle is not applied there (PathMatcher::MatchesPath tokenises away empty clauses); the refcount oracle below always is.
    const bool malformed = (bar > 0)&&(line[0] == 'z');
    g_nextSessionID = 0;
+   g_filterSpecs.clear();
    W w;
    Ctx c; c.w = &w; c.quietUsed = false;
    int j = -1;
@@ -485,7 +545,7 @@ static void RunCase(long k, const std::string & line)
          ClientState & me = c.cs[K];
          for (std::map<std::string,std::string>::iterator it = me.mirror.begin(); it != me.mirror.end(); )
          {
-            Message dm; if (it->second != "-") (void) dm.AddInt32("v", (int32) atol(it->second.c_str()));
+            Message dm; if (it->second != "-") FillPayload(dm, (int32) atol(it->second.c_str()));
             // canonical path back to the real one for matching
             const std::string rp = RealPattern(w, it->first);
             if (me.subs.MatchesPath(rp.c_str(), &dm, NULL)) ++it; else me.mirror.erase(it++);
@@ -607,6 +667,7 @@ static void RunCase(long k, const std::string & line)
       fflush(stdout);
    }
    w.Shutdown();
+   g_filterSpecs.clear();   // pooled Messages must be gone before the ObjectPools are
 }
 
 int main(int, char **)
